@@ -26,7 +26,7 @@
 From Coq Require Import List ZArith Bool Arith.
 Import ListNotations.
 From TI Require Import lib.Term lib.Eff gen.Skeletons model.DrawInt
-  proofs.SkelC07 proofs.SkelC07Old proofs.SkelC07Cut proofs.DrawIntProofs.
+  proofs.SkelC07 proofs.SkelC07Old proofs.SkelC07Cut proofs.SkelC07Any proofs.DrawIntProofs.
 
 (** ** (a) control flow *)
 
@@ -87,6 +87,54 @@ Theorem C07_handlers_harmless :
   analyze cfg_draw 0 sk_ITerm2Image__handle_interrupted_draw (fun _ s => all_clean s) = true.
 Proof. exact handlers_harmless. Qed.
 Print Assumptions C07_handlers_harmless.
+
+(** ** (a') control flow, faults at ANY call (round 4)
+
+    "at any point before its own clean-up starts": [cfg_all] lets EVERY call of the skeleton --
+    tracked or not: argument checks, size computations, opening the image source ([OpenImg]),
+    fixing the size, tcgetattr / tcsetattr, creating the frame iterator, ... -- raise
+    KeyboardInterrupt or an Exception before or after taking effect, anywhere outside the
+    finally / except blocks of draw() and of the functions it calls.  (What does not hold at
+    that strength -- an object created before the [try] that releases it is left to its
+    finalizer by a fault in between; a KeyboardInterrupt before the animation loop's [try] is
+    entered propagates -- is shown by the witness runs [*_refuted] of proofs/SkelC07Any.v.) *)
+
+(** Renderable.draw: cursor shown, attributes restored, cut frames handled, a still image
+    propagates KeyboardInterrupt *)
+Theorem C07_draw_cleans_any_call :
+  forall vs, length vs = nv_Renderable_draw ->
+  forall o s', eval cfg_all false (protect sk_Renderable_draw) (init vs) o s' ->
+    hidden s' = false /\ tmod s' = false /\ cut s' = false /\
+    (get fv_Renderable_draw__animation (vars s') = false -> kiseen s' = true -> o = ORaise KI).
+Proof. exact draw_cleans_any_call. Qed.
+Print Assumptions C07_draw_cleans_any_call.
+
+(** from draw()'s [try:] on (entered with the render data created and not finalized, for any
+    valuation of draw()'s flags), whatever raises at whatever call: the render data is
+    finalized, the cursor shown, the attributes restored, cut frames handled *)
+Theorem C07_draw_try_finalizes :
+  forall vs, length vs = nv_Renderable_draw ->
+  forall o s', eval cfg_all false draw_try (draw_try_entry vs) o s' ->
+    unfin s' = false /\ hidden s' = false /\ tmod s' = false /\ cut s' = false.
+Proof. exact draw_try_finalizes. Qed.
+Print Assumptions C07_draw_try_finalizes.
+
+(** BaseImage.draw: cursor shown, image size setting and frame position as found, cut frames
+    handled, a still image propagates KeyboardInterrupt *)
+Theorem C07_old_draw_cleans_any_call :
+  forall vs, length vs = nv_BaseImage_draw ->
+  forall o s', eval cfg_all false (protect sk_BaseImage_draw) (init vs) o s' ->
+    hidden s' = false /\ szmod s' = false /\ skmod s' = false /\ cut s' = false /\
+    (get fv_BaseImage_draw__animation (vars s') = false -> kiseen s' = true -> o = ORaise KI).
+Proof. exact old_draw_cleans_any_call. Qed.
+Print Assumptions C07_old_draw_cleans_any_call.
+
+(** [_renderer] on its own, whatever the renderer it is given does: the size setting is restored *)
+Theorem C07_renderer_restores_size_any_call :
+  forall vs, length vs = nv_BaseImage__renderer ->
+  forall o s', eval cfg_all false (protect (sk_BaseImage__renderer (Op Other))) (init vs) o s' -> szmod s' = false.
+Proof. exact renderer_restores_size_any_call. Qed.
+Print Assumptions C07_renderer_restores_size_any_call.
 
 (** ** (b) terminal side *)
 
